@@ -47,7 +47,7 @@ REQ0 = "From MM Require Import RealSpec.Normal RealSpec.KdeR Proofs.NormalR."
 KERNELS = {0: "Epanechnikov", 1: "Gaussian", 2: "Delta"}
 T = dict(EPAN=1, GAUSS=2, DELTA=4, NOBC=8, LOWER=16, UPPER=32, BOTH=64, OUTSIDE=128, ATMIN=256, ATMAX=512,
          WEIGHTED=1024, LAZY=2048, IMAGES=4096, KEND=8192, BOUNDS=16384, QUAD=32768, INF=65536, EMPTY=131072,
-         BWRULE=262144, BORDER=524288, SORTED=1048576, OFFSET=2097152)
+         BWRULE=262144, BORDER=524288, SORTED=1048576, OFFSET=2097152, HISTORY=4194304)
 D_NAMES = {1: "PDF value", 2: "CDF value", 3: "Bandwidth field after the call", 4: "law: PDF >= 0 / = 0 outside [BoundaryMin, BoundaryMax)",
            5: "law: CDF in [0,1], 0 up to BoundaryMin, 1 from BoundaryMax", 6: "law: CDF non-decreasing", 7: "Bounds()",
            8: "BandwidthScott", 9: "BandwidthSilverman", 10: "integral of PDF != CDF difference", 11: "total mass != 1",
@@ -185,7 +185,7 @@ def scott_branch(xs):
     return "stddev" if var < r * r else "iqr"
 
 
-FEATURES = ["cases", "OUTSIDE", "ATMIN", "ATMAX", "KEND", "IMAGES", "BOUNDS", "QUAD", "LAZY0", "LAZY1", "LAZY2", "BW_SD", "BW_IQR", "SORTED", "OFFSET"]
+FEATURES = ["cases", "OUTSIDE", "ATMIN", "ATMAX", "KEND", "IMAGES", "BOUNDS", "QUAD", "LAZY0", "LAZY1", "LAZY2", "BW_SD", "BW_IQR", "SORTED", "OFFSET", "HISTORY"]
 
 
 def coverage(lines, verdicts):
@@ -210,7 +210,7 @@ def coverage(lines, verdicts):
         key = "%s/%s/%s" % (KERNELS[d["kernel"]][:5], CONFS[cf], "w" if d["hasw"] else "u")
         row = tab.setdefault(key, {f: 0 for f in FEATURES})
         row["cases"] += 1
-        for f in ("OUTSIDE", "ATMIN", "ATMAX", "KEND", "BOUNDS", "QUAD", "SORTED", "OFFSET"):
+        for f in ("OUTSIDE", "ATMIN", "ATMAX", "KEND", "BOUNDS", "QUAD", "SORTED", "OFFSET", "HISTORY"):
             if tag & T[f]:
                 row[f] += 1
         img = bool(tag & T["IMAGES"])
@@ -572,7 +572,7 @@ def extra(ctx):
     try:
         tab = coverage(lines, verdicts)
         out["feature_coverage"] = dict(columns=FEATURES, rows={k: [tab.get(k, {}).get(f, 0) if applicable(k, f) else None for f in FEATURES] for k in all_keys()},
-                                       legend="rows kernel/boundaries/weighted(u|w); number of cases whose verdict tag has the feature (T_* of Check/C12.v); LAZYk = lazy bandwidth with First=k (0 PDF, 1 CDF, 2 Bounds first); BW_SD / BW_IQR = BandwidthScott took the StdDev / the IQR branch; SORTED = Sample.Sorted set; OFFSET = bandwidth rule compared on data whose offset is >= 1e4 ranges; Gaussian IMAGES = doubly bounded with h > BoundaryMax-BoundaryMin; null = not applicable")
+                                       legend="rows kernel/boundaries/weighted(u|w); number of cases whose verdict tag has the feature (T_* of Check/C12.v); LAZYk = lazy bandwidth with First=k (0 PDF, 1 CDF, 2 Bounds first); BW_SD / BW_IQR = BandwidthScott took the StdDev / the IQR branch; SORTED = Sample.Sorted set; HISTORY = the same KDE object had other configurations before; OFFSET = bandwidth rule compared on data whose offset is >= 1e4 ranges; Gaussian IMAGES = doubly bounded with h > BoundaryMax-BoundaryMin; null = not applicable")
         out["feature_holes"] = holes(tab)
     except Exception as e:  # noqa
         out["feature_coverage"] = "failed: %r" % (e,)
